@@ -682,11 +682,11 @@ func c18Generate(r *Run) {
 		"or one util.StreamBatch run (reset, batch); distinct = distinct op lists; non-trivial = the stream carries at least one valid element"
 	rnd := r.Rng
 	lengths := []int{0, 1, 1, 2, 2, 3, 3, 4, 5, 6, 8, 12, 20, 33, 49, 50, 51, 99, 100, 101, 102, 120}
-	nrand := 240
+	nrand := 160
 	nbatch := 6
 	if r.Tier == "thorough" {
-		nrand = 4000
-		nbatch = 60
+		nrand = 2500
+		nbatch = 40
 	}
 	var ops []map[string]interface{}
 	ncase := 0
